@@ -474,6 +474,10 @@ func runC11(c *core.Ctx) {
 			// the case's own command first, then the others in rotation: every resolving command sees every case class
 			t.cmd = cmds[(i+k)%len(cmds)]
 			args = append([]string{}, baseArgs...)
+			if k%4 == 1 {
+				// the switch that would drop the book, given with an explicit false value: the book stays
+				args = append(args, []string{"--no-database=false", "--no-database=0", "--no-database=F"}[(i+k)%3])
+			}
 			if k%3 == 2 && t.cmd[0] != "summary" {
 				// a period that keeps no day, every day or is inverted: the book is resolved all the same
 				args = append(args, randomPeriod(rr, func(y, m, d int) string { return fmt.Sprintf("%04d/%02d/%02d", y, m, d) })...)
